@@ -27,3 +27,8 @@ Definition wrap (hooked : list nat) (s : wstate) : wstate :=
   mkw (w_ledger s) (flat_map (fun m => map (fun k => (m, k)) hook_kinds) hooked ++ w_handles s).
 (* to_standard_module *)
 Definition unwrap (s : wstate) : wstate := mkw (filter (fun f => negb (removed f)) (w_ledger s)) [].
+(* the caller's criterion, as a list of (attribute, value): ghost-mode make_private overwrites the attributes listed in criterion_attrs_written with values of its own *)
+Fixpoint aset {V} (k : pystr) (v : V) (c : list (pystr * V)) : list (pystr * V) :=
+  match c with [] => [(k, v)] | (k', v') :: t => if String.eqb k k' then (k, v) :: t else (k', v') :: aset k v t end.
+Definition crit_after_wrap {V} (own : pystr -> V) (c : list (pystr * V)) : list (pystr * V) :=
+  fold_left (fun acc k => aset k (own k) acc) criterion_attrs_written c.
